@@ -596,3 +596,26 @@ def make_random():
     m.getrandbits = getrandbits
     m.random = _random.random
     return m
+
+
+def make_math():
+    import math as _math
+    m = types.ModuleType('math')
+    for k in dir(_math):
+        if not k.startswith('_'):
+            setattr(m, k, getattr(_math, k))
+
+    def log(x, *a):
+        st = cur_state()
+        if st is not None and st.get('log_value') is not None and not a:
+            return st['log_value']
+        if st is not None and st.get('log_sym') and not a:
+            from . import symfloat
+            v = z3.FP(cur().fresh_name('logv'), symfloat.F64)
+            cur().add(z3.And(z3.fpLT(v, z3.FPVal(0.0, symfloat.F64)), z3.Not(z3.fpIsInf(v)), z3.Not(z3.fpIsNaN(v))))
+            cur().model = None
+            st.setdefault('log_vars', []).append(v)
+            return symfloat.SymFloat(v)
+        return _math.log(x, *a)
+    m.log = log
+    return m
